@@ -62,16 +62,30 @@ Fixpoint section_of (hdr : str) (lines : list (list str)) : option (list (list s
       end
   end.
 
-(* headers come in pairs n_1, n_2; returns the sample names in file order *)
+(* headers come in pairs of one sample, n_1 then n_2 or n_2 then n_1; returns the sample
+   names in file order *)
+Definition pair_ok (a b : str) : bool :=
+  ((ends_with sfx_1 a && ends_with sfx_2 b) || (ends_with sfx_2 a && ends_with sfx_1 b))
+  && str_eqb (drop_last 2 a) (drop_last 2 b).
+
 Fixpoint names_of (hs : list str) : option (list str) :=
   match hs with
   | [] => Some []
   | a :: r1 =>
       match r1 with
-      | b :: r =>
-          if ends_with sfx_1 a && ends_with sfx_2 b && str_eqb (drop_last 2 a) (drop_last 2 b)
-          then option_map (cons (drop_last 2 a)) (names_of r) else None
+      | b :: r => if pair_ok a b then option_map (cons (drop_last 2 a)) (names_of r) else None
       | [] => None
+      end
+  end.
+
+(* which of the two headers h1, h2 comes first in the file (true: h1) *)
+Fixpoint first_hdr (h1 h2 : str) (lines : list (list str)) : option bool :=
+  match lines with
+  | [] => None
+  | l :: r =>
+      match l with
+      | [h] => if str_eqb h h1 then Some true else if str_eqb h h2 then Some false else first_hdr h1 h2 r
+      | _ => first_hdr h1 h2 r
       end
   end.
 
@@ -132,32 +146,97 @@ Fixpoint cen_table (t : ftab) (cl : list (list str)) (d : list (Z * float)) : op
       end
   end.
 
-(* one strand: labels, chromosomes and order as in the file; every block ends at its
-   recorded end, except the last block of a run of one chromosome when a table of
-   chromosome ends is given; a chromosome starts at (about) 0 and each further block
-   where the previous one ended in the file (tolerance 0.001 cM; the code adds 0.0001) *)
+Definition ent : Type := (str * Z * float)%type.
+
+Definition e_chrom (x : ent) : Z := snd (fst x).
+
+(* the next entry is on another chromosome (or there is none): last block of a run *)
+Definition last_of_run (c : Z) (er : list ent) : bool :=
+  match er with [] => true | x :: _ => negb (e_chrom x =? c) end.
+
+(* the chromosome comes back later in the strand (a shape outside the property's quantifier) *)
+Definition recurs (c : Z) (er : list ent) : bool := existsb (fun x => e_chrom x =? c) er.
+
+(* the lower bound of a block's start: the previous file end on the same run, else 0 *)
+Definition start_lo (prev : option (Z * float)) (c : Z) : float :=
+  match prev with
+  | Some (pc, pe) => if pc =? c then pe else 0%float
+  | None => 0%float
+  end.
+
+(* the end demanded of a block: its recorded end, except for the last block of its
+   chromosome when a table of chromosome ends is given: the listed end.  A run end whose
+   chromosome recurs later may carry either. *)
+Definition end_ok (ends : option (list (Z * float))) (c : Z) (e : float) (er : list ent) (x : float) : bool :=
+  match ends with
+  | Some tb => if last_of_run c er
+               then match assoc Z.eqb c tb with
+                    | Some y => feqb x y || (recurs c er && feqb x e)
+                    | None => true
+                    end
+               else feqb x e
+  | None => feqb x e
+  end.
+
+(* one strand: labels, chromosomes, number and order as in the file; every block ends as
+   [end_ok] says; a chromosome starts at (about) 0 and each further block where the
+   previous one ended in the file (tolerance 0.001 cM; the code adds 0.0001) *)
 Fixpoint strand_ok (chk_chrom : bool) (ends : option (list (Z * float))) (prev : option (Z * float))
-    (exp : list (str * Z * float)) (obs : list hb) : bool :=
+    (exp : list ent) (obs : list hb) : bool :=
   match exp, obs with
   | [], [] => true
   | (p, c, e) :: er, b :: br =>
-      let last_of_run := match er with [] => true | (_, c', _) :: _ => negb (c' =? c) end in
-      let lo := match prev with
-                | Some (pc, pe) => if pc =? c then pe else 0%float
-                | None => 0%float
-                end in
+      let lo := start_lo prev c in
       str_eqb p (h_pop b)
       && (negb chk_chrom || (c =? h_chrom b))
       && fleb lo (h_start b) && fleb (h_start b) (PrimFloat.add lo f_tol)
-      && match ends with
-         | Some tb => if last_of_run
-                      then match assoc Z.eqb c tb with Some x => feqb (h_end b) x | None => true end
-                      else feqb (h_end b) e
-         | None => feqb (h_end b) e
-         end
+      && end_ok ends c e er (h_end b)
       && strand_ok chk_chrom ends (Some (c, e)) er br
   | _, _ => false
   end.
+
+(* ---- non-overlapping ---------------------------------------------------------------
+   precondition on the file (and the table): within a run of one chromosome the recorded
+   ends increase by at least 0.0001 (x < x + 0.0001 <= next end; first end >= 0.0001), and a
+   listed end is not below the recorded end of the block it replaces *)
+Fixpoint inc_pre (ends : option (list (Z * float))) (prev : option (Z * float)) (exp : list ent) : bool :=
+  match exp with
+  | [] => true
+  | (p, c, e) :: er =>
+      (match prev with
+       | Some (pc, pe) => if pc =? c then PrimFloat.ltb pe (f_plus_eps pe) && fleb (f_plus_eps pe) e
+                          else fleb f_eps e
+       | None => fleb f_eps e
+       end)
+      && (match ends with
+          | Some tb => if last_of_run c er
+                       then match assoc Z.eqb c tb with Some y => fleb e y | None => false end
+                       else true
+          | None => true
+          end)
+      && inc_pre ends (Some (c, e)) er
+  end.
+
+(* every later block of the same run (chromosomes read from the file's entries) starts at
+   or after x *)
+Fixpoint later_ok (c : Z) (x : float) (er : list ent) (br : list hb) : bool :=
+  match er, br with
+  | y :: er', b :: br' => if e_chrom y =? c then fleb x (h_start b) && later_ok c x er' br' else true
+  | _, _ => true
+  end.
+
+(* the observed blocks of every run are ordered (start <= end) and pairwise disjoint
+   (a block ends where or before every later block of its run starts) *)
+Fixpoint nonoverlap_ok (exp : list ent) (obs : list hb) : bool :=
+  match exp, obs with
+  | x :: er, b :: br =>
+      fleb (h_start b) (h_end b) && later_ok (e_chrom x) (h_end b) er br && nonoverlap_ok er br
+  | _, _ => true
+  end.
+
+Definition strand_holds (chk_chrom : bool) (ends : option (list (Z * float))) (exp : list ent) (obs : list hb) : bool :=
+  strand_ok chk_chrom ends None exp obs
+  && (negb (inc_pre ends None exp) || nonoverlap_ok exp obs).
 
 Definition listed (tb : list (Z * float)) (exp : list (str * Z * float)) : bool :=
   forallb (fun x : str * Z * float => match assoc Z.eqb (snd (fst x)) tb with Some _ => true | None => false end) exp.
@@ -180,8 +259,11 @@ Definition expectation (t : ftab) (name : str) (lines : list (list str)) (cen : 
         if existsb (str_eqb name) ns then
           match section_of (name ++ sfx_1) lines, section_of (name ++ sfx_2) lines with
           | Some l1, Some l2 =>
-              let e1 := entries t l1 in
-              let e2 := entries t l2 in
+              (* strand 0 is the section whose header comes first in the file *)
+              let swap := match first_hdr (name ++ sfx_1) (name ++ sfx_2) lines with
+                          | Some false => true | _ => false end in
+              let e1 := entries t (if swap then l2 else l1) in
+              let e2 := entries t (if swap then l1 else l2) in
               match tb with
               | Some tbl =>
                   if listed tbl e1 && listed tbl e2
@@ -209,7 +291,7 @@ Definition holds_blocks (k : bcase) : bool :=
   | Some None => match b_obs k with Ok [] => true | _ => false end
   | Some (Some (e1, e2, tb)) =>
       match b_obs k with
-      | Ok [o1; o2] => strand_ok true tb None e1 o1 && strand_ok true tb None e2 o2
+      | Ok [o1; o2] => strand_holds true tb e1 o1 && strand_holds true tb e2 o2
       | _ => false
       end
   end.
@@ -256,8 +338,8 @@ Definition holds_plot (k : pcase) : bool :=
       | Ok rs =>
           match all_some (map rect_block rs) with
           | Some bs =>
-              strand_ok false tb None e1 (firstn (length e1) bs)
-              && strand_ok false tb None e2 (skipn (length e1) bs)
+              strand_holds false tb e1 (firstn (length e1) bs)
+              && strand_holds false tb e2 (skipn (length e1) bs)
           | None => false
           end
       | Err _ => false
